@@ -1,5 +1,5 @@
 import SFV.Model.JobNet
-import SFV.Props.C16
+import SFV.Lemmas.JobNet
 import SFV.Model.Proto
 open SFV SFV.Proto SFV.JobNet
 
@@ -36,7 +36,7 @@ def handle : List String → String
               match runIdx net init as 0 with
               | .inl i => s!"disabled {i}"
               | .inr s =>
-                  let ref := (runActs net init (SFV.C16.sweep n)).getD init
+                  let ref := (runActs net init (SFV.JobNet.sweep n)).getD init
                   let js := List.range n
                   let present := js.filter (fun j => (s.store j).isSome)
                   let agree := js.all (fun j => match s.store j with | some v => ref.store j == some v | none => true)
